@@ -132,6 +132,12 @@ type P19 struct {
 	Q any `json:"q"`
 }
 
+// P20 holds a P18 node BY VALUE under the same property ID ("next") as the node's own self-reference, which is a
+// pointer: the two must not be confused when defaults are propagated.
+type P20 struct {
+	Next P18 `json:"next"`
+}
+
 type P9 struct {
 	FieldByName int64
 	Other       string `json:"other,omitempty"`
@@ -185,6 +191,8 @@ func buildStruct(name, id string, props map[string]*schema.PropertySchema) *sche
 		return schema.NewStructMappedObjectSchema[P17](id, props)
 	case "P19":
 		return schema.NewStructMappedObjectSchema[P19](id, props)
+	case "P20":
+		return schema.NewStructMappedObjectSchema[P20](id, props)
 	case "P10":
 		return schema.NewStructMappedObjectSchema[P10](id, props)
 	case "*P10":
@@ -246,6 +254,8 @@ func buildTypedScope(rootStruct string, root *schema.ObjectSchema, others []*sch
 // ZeroStruct returns the zero value of the named pool type (for wrong-struct probes).
 func ZeroStruct(name string) any {
 	switch name {
+	case "P20":
+		return P20{}
 	case "P19":
 		return P19{}
 	case "P1":
